@@ -299,3 +299,110 @@ Fixpoint crash_points (paths : list path) (st : wstate) (ls : list lev) (f2 : ws
       crash_points paths (apply_lev st l) t f2
         (match lev_req l with Some r => pre ++ [r] | None => pre end)
   end.
+
+(* ---------------------------------------------------------------- scripted honest host (C08 check) *)
+(* digest of a file's content: (length, checksum) *)
+Definition digest (c : bytes) : N * N :=
+  (N.of_nat (length c), fold_left (fun a b => (a * 257 + b + 1) mod 4294967291) c 0).
+Definition st_digest (paths : list path) (st : wstate) :=
+  (map (fun p => option_map digest (fst st p)) paths, h_latched (snd st), N.of_nat (length (h_issued (snd st)))).
+
+(* one poll's host behaviour: the status document as a function of the host's latch (or a fixed
+   guid), the keys the host hands out on successive acquire requests (indexed by how many it has
+   issued), and the fault codes 0 = ok, 1 = lost (host acts, agent sees an error), 2 = error *)
+Record hscript := {
+  hs_rotate : bool;                       (* the host drops its latch before this poll *)
+  hs_status_ok : bool;
+  hs_doc : option bytes -> doc;
+  hs_guid : option (option bytes);        (* Some g: report g instead of the latch *)
+  hs_keys : list key;
+  hs_acq : N;
+  hs_store : option nat;                  (* Some n: the store fails after n events *)
+  hs_att : N;
+}.
+
+Definition faults_of (hs : hscript) (st : wstate) : faults :=
+  let g := match hs_guid hs with Some g => g | None => h_latched (snd st) end in
+  {| f_status := if hs_status_ok hs then StatusDoc (hs_doc hs g) else StatusErr;
+     f_acquire := match nth_error (hs_keys hs) (length (h_issued (snd st))) with
+                  | Some k => if hs_acq hs =? 0 then AcqOk k else if hs_acq hs =? 1 then AcqLost k else AcqErr
+                  | None => AcqErr
+                  end;
+     f_store := match hs_store hs with Some n => StoreFail n | None => StoreOk end;
+     f_attest := if hs_att hs =? 0 then AttOk else if hs_att hs =? 1 then AttLost else AttErr |}.
+
+Definition rotate (st : wstate) : wstate :=
+  (fst st, {| h_issued := h_issued (snd st); h_latched := None |}).
+
+Definition restart_digest (paths : list path) (st : wstate) (f2 : faults) :=
+  let m := mem_after st kk_init f2 in
+  (reqs_of (trace st kk_init f2), option_map key_out (k_key m), k_state m,
+   st_digest paths (run_levs st (trace st kk_init f2))).
+
+(* crash points are numbered globally over the polls of the scenario: poll 1 contributes
+   |trace| + 1 points (prefix lengths 0 .. |trace|), then poll 2, ...; only the points listed in
+   [want] are evaluated (each costs a restart simulation) *)
+Fixpoint crash_sel (paths : list path) (st : wstate) (ls : list lev) (r : hscript) (pre : list (N * bytes))
+                   (idx : nat) (want : list nat) :=
+  (if existsb (Nat.eqb idx) want
+   then [(N.of_nat idx, pre, st_digest paths st, restart_digest paths st (faults_of r st))] else [])
+  ++ match ls with
+     | [] => []
+     | l :: t =>
+         crash_sel paths (apply_lev st l) t r
+           (match lev_req l with Some q => pre ++ [q] | None => pre end) (S idx) want
+     end.
+
+(* all selected crash points of a run of polls of ONE process (memory carried from poll to poll),
+   each with what a fresh process does next under the restart script [r]; and the state after all polls *)
+Fixpoint scenario_points (paths : list path) (st : wstate) (mem : kk) (polls : list hscript) (r : hscript)
+                         (pre : list (N * bytes)) (idx : nat) (want : list nat) :=
+  match polls with
+  | [] => ([], (pre, st_digest paths st, option_map key_out (k_key mem), k_state mem))
+  | hs :: t =>
+      let st0 := if hs_rotate hs then rotate st else st in
+      let f := faults_of hs st0 in
+      let tr := trace st0 mem f in
+      let '(rest, fin) := scenario_points paths (run_levs st0 tr) (mem_after st0 mem f) t r (pre ++ reqs_of tr)
+                            (idx + S (length tr)) want in
+      (crash_sel paths st0 tr r pre idx want ++ rest, fin)
+  end.
+
+(* cheap summary of EVERY crash point (number of requests that reached the host, length of each
+   path's content), used by the check only to propose which points to evaluate *)
+Definition len_apply (paths : list path) (ln : list (option N)) (e : fs_event) : list (option N) :=
+  let look p := match find (fun ql => beq (fst ql) p) (combine paths ln) with Some ql => snd ql | None => None end in
+  match e with
+  | FCreate p => map (fun ql => if beq (fst ql) p then Some 0 else snd ql) (combine paths ln)
+  | FWrite p _ => map (fun ql => if beq (fst ql) p then option_map N.succ (snd ql) else snd ql) (combine paths ln)
+  | FRename p q =>
+      match look p with
+      | Some l => map (fun rl => if beq (fst rl) q then Some l else if beq (fst rl) p then None else snd rl) (combine paths ln)
+      | None => ln
+      end
+  | FRemove p => map (fun ql => if beq (fst ql) p then None else snd ql) (combine paths ln)
+  end.
+
+Fixpoint summaries (paths : list path) (ln : list (option N)) (nreq : N) (ls : list lev) : list (N * list (option N)) :=
+  (nreq, ln) ::
+  match ls with
+  | [] => []
+  | l :: t =>
+      summaries paths (match l with LFs e => len_apply paths ln e | _ => ln end)
+                (match lev_req l with Some _ => nreq + 1 | None => nreq end) t
+  end.
+
+Fixpoint scenario_summaries (paths : list path) (st : wstate) (mem : kk) (polls : list hscript) (nreq : N) :=
+  match polls with
+  | [] => []
+  | hs :: t =>
+      let st0 := if hs_rotate hs then rotate st else st in
+      let f := faults_of hs st0 in
+      let tr := trace st0 mem f in
+      let ln := map (fun p => option_map (fun c => N.of_nat (length c)) (fst st0 p)) paths in
+      summaries paths ln nreq tr
+      ++ scenario_summaries paths (run_levs st0 tr) (mem_after st0 mem f) t (nreq + N.of_nat (length (reqs_of tr)))
+  end.
+
+Definition fs_of_list (l : list (path * bytes)) : fsys :=
+  fold_left (fun f pc => fs_set f (fst pc) (Some (snd pc))) l fs_empty.
